@@ -273,7 +273,7 @@ PROPS = {
         deadline=dict(quick=240, thorough=1500),
         rule="write: documents whose serialization has 2, 9, 12, 40, 4095, 4096, 4097 and 9000 bytes plus a small tree x 3 flag sets x {to_fd, to_file_ext}; read: the same texts plus a nested, "
              "an invalid, a bare-number and an empty text x {from_fd, from_fd_ex(3), from_fd_ex(32), from_file}; every read()/write() is a choice point: for texts <= 12 bytes every "
-             "transfer size 1..n and two errno values at every call (all compositions), for larger ones sizes {all,1,2,n/2,n-1} and two errors with a bounded number of deviations; "
+             "transfer size 1..n and three errno values (EIO, EINTR, ENOSPC) at every call (all compositions), for larger ones sizes {all,1,2,n/2,n-1} and the three errors with a bounded number of deviations; "
              "open() failure, NULL object; non-trivial = distinct (operation, document, variant)",
         bound=dict(quick="<= 2 deviations on large documents", thorough="<= 3 deviations on large documents"),
         states_stat="cases", transitions_stat="schedules",
